@@ -11,6 +11,7 @@ import (
 	"os"
 	"path/filepath"
 	"regexp"
+	"runtime"
 	"sort"
 	"strings"
 	"sync"
@@ -31,6 +32,7 @@ type Case struct {
 	Clients  int    `json:"clients"`
 	Ops      int    `json:"ops"`
 	KB       int    `json:"kb"`
+	Bulk     int    `json:"bulk,omitempty"` // extra ~900-byte rows in u so that the working set exceeds the pool
 	File     bool   `json:"file"`
 	Seed     int64  `json:"seed"`
 }
@@ -201,6 +203,10 @@ func runWorkload(c *Case) (overlap bool, f *vf.Failure) {
 		db.FrontDoor(fmt.Sprintf("INSERT INTO t(id, g, v) VALUES (%d, %d, 0);", i, i%4))
 		db.FrontDoor(fmt.Sprintf("INSERT INTO u(id, s) VALUES (%d, '%s');", i, strings.Repeat("p", 200+i)))
 	}
+	for i := 0; i < c.Bulk; i++ {
+		db.FrontDoor(fmt.Sprintf("INSERT INTO u(id, s) VALUES (%d, '%s');", 40+i, strings.Repeat("b", 880+i%40)))
+	}
+	uRows := 40 + c.Bulk
 	var wg sync.WaitGroup
 	var stop int32
 	var active, maxActive int32
@@ -230,7 +236,7 @@ func runWorkload(c *Case) (overlap bool, f *vf.Failure) {
 			case 3:
 				q = fmt.Sprintf("SELECT t.id, u.id FROM t, u WHERE t.id = u.id AND t.g = %d;", rng.Intn(4))
 			case 4:
-				q = fmt.Sprintf("UPDATE u SET s = '%s' WHERE id = %d;", strings.Repeat("q", 100+rng.Intn(900)), rng.Intn(40))
+				q = fmt.Sprintf("UPDATE u SET s = '%s' WHERE id = %d;", strings.Repeat("q", 100+rng.Intn(900)), rng.Intn(uRows))
 			default:
 				q = fmt.Sprintf("DELETE FROM t WHERE id = %d;", 1000+rng.Intn(50))
 			}
@@ -252,7 +258,8 @@ func runWorkload(c *Case) (overlap bool, f *vf.Failure) {
 				case 1:
 					t.ExecSQL(fmt.Sprintf("UPDATE t SET v = %d WHERE id = %d;", rng.Intn(1000), rng.Intn(40)), nil)
 				default:
-					t.ExecSQL(fmt.Sprintf("SELECT id FROM u WHERE id >= %d AND id <= %d;", rng.Intn(20), 20+rng.Intn(20)), nil)
+					a := rng.Intn(uRows)
+					t.ExecSQL(fmt.Sprintf("SELECT id FROM u WHERE id >= %d AND id <= %d;", a, a+rng.Intn(20)), nil)
 				}
 			}
 			if !t.Done {
@@ -303,18 +310,14 @@ func runWorkload(c *Case) (overlap bool, f *vf.Failure) {
 	}
 	clientsDone := make(chan struct{})
 	go func() { wg.Wait(); close(clientsDone) }()
-	select {
-	case <-clientsDone:
-	case <-time.After(240 * time.Second):
+	if !vf.WaitScheduled(clientsDone, 240*time.Second) {
 		atomic.StoreInt32(&stop, 1)
 		return atomic.LoadInt32(&maxActive) >= 2, vf.Failf("workload-hang", "workload %s did not finish within 240 s", c.Workload)
 	}
 	atomic.StoreInt32(&stop, 1)
 	bgDone := make(chan struct{})
 	go func() { bg.Wait(); close(bgDone) }()
-	select {
-	case <-bgDone:
-	case <-time.After(60 * time.Second):
+	if !vf.WaitScheduled(bgDone, 60*time.Second) {
 		return atomic.LoadInt32(&maxActive) >= 2, vf.Failf("workload-hang", "background goroutine of workload %s did not stop within 60 s", c.Workload)
 	}
 	return atomic.LoadInt32(&maxActive) >= 2, nil
@@ -335,11 +338,17 @@ func indexWorkload(db *dbh.DB, c *Case) bool {
 		wg.Add(1)
 		go func(w int) {
 			defer wg.Done()
-			defer func() { recover() }()
+			defer func() {
+				if r := recover(); r != nil {
+					buf := make([]byte, 1<<16)
+					n := runtime.Stack(buf, false)
+					os.WriteFile(fmt.Sprintf("%s/indexpanic-%s-%d-%d.txt", os.Getenv("VERIF_OUT"), kind, c.Seed%1000, w), []byte(fmt.Sprintf("%v\n%s", r, buf[:n])), 0o644)
+				}
+			}()
 			rng := rand.New(rand.NewSource(c.Seed*13 + int64(w)))
 			own := map[int32]page.RID{}
 			for n := 0; n < c.Ops*4; n++ {
-				k := int32(10*rng.Intn(300) + w)
+				k := int32(16*rng.Intn(300) + w) // w < 16: every worker owns its residue class (a unique index must never see the same key twice)
 				if rid, ok := own[k]; ok {
 					idx.DeleteEntry(tup(k), rid, nil)
 					delete(own, k)
@@ -349,10 +358,10 @@ func indexWorkload(db *dbh.DB, c *Case) bool {
 					own[k] = rid
 				}
 				if n%3 == 0 {
-					idx.ScanKey(tup(int32(10*rng.Intn(300)+rng.Intn(c.Clients))), nil)
+					idx.ScanKey(tup(int32(16*rng.Intn(300)+rng.Intn(c.Clients))), nil)
 				}
 				if n%7 == 0 && kind != dbh.IdxHash {
-					it := idx.GetRangeScanIterator(tup(int32(rng.Intn(1500))), tup(int32(1500+rng.Intn(1500))), nil)
+					it := idx.GetRangeScanIterator(tup(int32(rng.Intn(2400))), tup(int32(2400+rng.Intn(2400))), nil)
 					for i := 0; i < 5000; i++ {
 						if done, _, _, _ := it.Next(); done {
 							break
@@ -392,14 +401,28 @@ func TestRace(t *testing.T) {
 		c := &Case{Workload: workloads[(i*4+s.Shard)%len(workloads)], Clients: 4 + rng.Intn(9), Ops: s.Pick(60, 150), KB: []int{160, 240, 800}[rng.Intn(3)], File: s.Shard%3 == 0, Seed: rng.Int63()}
 		if strings.HasPrefix(c.Workload, "index:") {
 			c.KB = 400
+		} else if i%2 == 1 {
+			// working set larger than the pool: dirty pages are evicted while other goroutines commit
+			c.KB, c.Bulk = []int{160, 200}[rng.Intn(2)], 160+rng.Intn(80)
+			c.Ops = c.Ops * 2 / 3
+			if c.Clients > 8 {
+				c.Clients = 8
+			}
 		}
 		var overlap bool
+		t0 := time.Now()
 		f, _ := vf.WithTimeout(300*time.Second, func() *vf.Failure {
 			var ff *vf.Failure
 			overlap, ff = runWorkload(c)
 			return ff
 		})
 		s.Count(c, overlap, "workload:"+c.Workload)
+		fmt.Fprintf(os.Stderr, "c19 run %d shard %d %s clients=%d ops=%d kb=%d bulk=%d file=%v: %.1fs\n", i, s.Shard, c.Workload, c.Clients, c.Ops, c.KB, c.Bulk, c.File, time.Since(t0).Seconds())
+		if f != nil && f.Class == "hang" {
+			if ex, ok := f.Extra.(string); ok {
+				os.WriteFile(fmt.Sprintf("%s/hang-%d-%d.txt", os.Getenv("VERIF_OUT"), s.Shard, i), []byte(ex), 0o644)
+			}
+		}
 		if f != nil && f.Class != "workload-hang" {
 			// a panic inside the engine under concurrency: reported with its class (other properties own the semantics)
 			s.Class("workload-failure:"+f.Class, 1)
